@@ -28,6 +28,11 @@ def check(repo: Repo, rep, tier):
     from .C03 import io_encoding
 
     io_encoding(repo, rep)
+    from .C03 import char_units, range_prov
+
+    # the literal has to land on the characters of the old one: positions in character units
+    range_prov(repo, rep)
+    char_units(repo, rep)
     stale_bindings(repo, rep, {"config"}, "e.g. a copied `config` never sees the format-command read in pytest_configure, so code fragments are piped through the wrong formatter path")
 
 
